@@ -34,8 +34,10 @@ ACCESS_METHOD = {
 }
 
 
-def _present(xs, seed: int):
-    """Presentation of a list-valued argument: order depends on the seed only."""
+def _present(xs, seed: int, sequence=False):
+    """Presentation of a list-valued argument: order depends on the seed only.  sequence=True: the parameter is
+    documented as 'str | Sequence[str]' (module rules), so a batch is handed over as a list or as a tuple -
+    which of the two depends on the names' lengths and the seed, so both occur under every seed."""
     xs = list(xs)
     if seed % 3 == 1:
         xs.reverse()
@@ -43,13 +45,15 @@ def _present(xs, seed: int):
         xs = xs[1:] + xs[:1]
     if len(xs) == 1 and seed % 2 == 0:
         return xs[0]
+    if sequence and (sum(map(len, xs)) + len(xs) + seed) % 2:
+        return tuple(xs)
     return xs
 
 
 def mkrule(spec: dict, seed: int = 0):
     """Build a real Rule from a spec (verb, imp, exc, sk, subj, ok, obj | anything)."""
     r = Rule().modules_that()
-    subj = _present(spec["subj"], seed)
+    subj = _present(spec["subj"], seed, sequence=True)
     if spec["sk"] == "regex":
         r = r.have_name_matching(spec["subj"][0])
     else:
@@ -58,7 +62,7 @@ def mkrule(spec: dict, seed: int = 0):
     if spec.get("anything"):
         return r.import_anything() if spec["imp"] else r.be_imported_by_anything()
     r = getattr(r, IMPORT_METHOD[(spec["imp"], spec["exc"])])()
-    obj = _present(spec["obj"], seed)
+    obj = _present(spec["obj"], seed, sequence=True)
     if spec["ok"] == "regex":
         return r.have_name_matching(spec["obj"][0])
     return (r.are_named if spec["ok"] == "named" else r.are_sub_modules_of)(obj)
